@@ -12,7 +12,7 @@ import shutil
 import subprocess
 import time
 
-from . import extract
+from . import extract, rsscan
 
 
 def _prepare(uname, ucfg, repo, verif, build):
@@ -153,11 +153,41 @@ def run_unit(uname, ucfg, tier, repo, verif, build, log):
     # harness crate fails with "cannot find function `f`", copy `fn f` from the source files this unit already extracts from
     # (plain text, byte for byte) and rebuild -- at most three rounds.
     rounds = 0
-    while rounds < 3 and ('error[E0425]' in out):
+    while rounds < 3 and ('error[E0425]' in out or 'error[E0433]' in out):
         missing = sorted(set(re.findall(r'cannot find function `(\w+)` in this scope', out)))
-        if not missing:
+        missing_types = sorted(set(re.findall(r'(?:cannot find type|use of undeclared type) `(\w+)`', out)))
+        if not missing and not missing_types:
             break
         added = []
+        # a missing private helper TYPE (unit struct / enum used as a namespace): copy its definition and its inherent impl blocks
+        srcs_t = sorted({it['source'] for it in items if it.get('source', '').endswith('.rs')})
+        gen_t = [os.path.join(r_, f_) for r_, _, fs_ in os.walk(os.path.join(dst, 'src')) for f_ in fs_ if f_ == 'extracted.rs']
+        for tname in (missing_types if gen_t else []):
+            for rel in srcs_t:
+                try:
+                    rf = rsscan.RustFile(os.path.join(repo, rel))
+                    text = None
+                    for kw in ('struct', 'enum'):
+                        try:
+                            _k, _n, a, _h, b = rf.locate([f'{kw} {tname}'])
+                            text = rf.src[a:b]
+                            break
+                        except rsscan.ScanError:
+                            continue
+                    if text is None:
+                        continue
+                    try:
+                        _k, _n, a, _h, b = rf.locate([f'impl {tname}'])
+                        text += '\n' + rf.src[a:b]
+                    except rsscan.ScanError:
+                        pass
+                except OSError:
+                    continue
+                open(gen_t[0], 'a').write('\n// helper type pulled in by the dependency closure (named by extracted text)\n' + text + '\n')
+                items.append(dict(kind='type+impl', source=rel, selector=f'{tname} (definition and inherent impl)', sha=extract._sha(text), name=tname, loc=text.count('\n') + 1))
+                rewrites.append(f'dependency closure: copied private helper type `{tname}` with its inherent impl from {rel}')
+                added.append(tname)
+                break
         srcs = sorted({it['source'] for it in items if it.get('source', '').endswith('.rs')})
         gen_files = [os.path.join(r_, f_) for r_, _, fs_ in os.walk(os.path.join(dst, 'src')) for f_ in fs_ if f_ == 'extracted.rs']
         if not gen_files:
